@@ -774,7 +774,7 @@ hmac_sha2_init(const size_t bits, const uint8_t *key, const size_t key_len,
 		i = hctx->ctx.hash_size;
 		sha2_final(&hctx->ctx, (uint8_t*)k_ipad);
 		sha2_init(bits, &hctx->ctx); /* Reinit context for 1st pass. */
-	} else {
+	} else if (0 != i) { /* Empty key may be NULL: memcpy(..., NULL, 0) is UB. */
 		memcpy(k_ipad, key, i);
 	}
 	memset((((uint8_t*)k_ipad) + i), 0x00, (SHA2_MSG_BLK_MAX_SIZE - i));
